@@ -317,6 +317,7 @@ func runSpace(r *ev.Run, b *builds, sp space, workers int, j *judge) {
 
 func main() {
 	r := ev.Start("C20", "exploration")
+	ev.BigHeap(1 << 30)
 	workers := runtime.NumCPU()
 	if workers > 16 {
 		workers = 16
